@@ -65,7 +65,7 @@ struct Runner {
     }
     bool busy(int p) const { return !curOp[p].empty(); }
     std::string key() {
-        std::string k = t.project(); k += '|'; k += t.ghost();
+        std::string k = t.project(); k += '|'; k += t.ghost(); k += '|'; k += abortMsg;
         for (int p = 0; p < n; ++p) { k += '|'; k += std::to_string(opsDone[p]); k += ':'; k += curOp[p]; k += ':'; k += observed[p]; k += ':'; k += t.hidden(p); }
         return k;
     }
